@@ -27,7 +27,7 @@ ASSUMPTIONS = ["pyo3's generated glue (argument extraction, trampolines, type ob
                "transmutes between Vec<T> and Vec<PyT> (repr(transparent) newtypes) are modelled as element-wise wrapping"]
 OUTSIDE = ["CPython itself and the pyo3 macro expansion beyond the default-argument closures (argument extraction, result conversion, GIL)", "__repr__ / __str__ (formatting)",
            "batch trackers' predict and the visual batch request object; shard_stats of Sort / BatchSort / BatchVisualSort (reach into lock guards); Polygon.get_points; Universal2DBox.as_ltwh / gen_vertices / get_vertices; filter state bbox()",
-           "nms / sutherland_hodgman_clip / intersection_area wrappers (their Rust functions are C14 / C15 / C08)",
+           "the numeric results of nms / sutherland_hodgman_clip / intersection_area (their Rust functions are C14 / C15 / C08; the wrappers' argument routing is decided here)",
            "parity of argument VALIDATION (the options setters of the binding accept values the Rust builder asserts against): only inputs both sides accept are compared"]
 
 
@@ -1249,3 +1249,111 @@ MIR.append(MQ("c18_visual_observations", "quick", _mk_visual_obs(),
               "2 observations, features of 2 components, every Option both ways; tracker call uninterpreted",
               ["similari::trackers::visual_sort::python::PyVisualSortObservation::new", "similari::trackers::visual_sort::simple_api::python::PyVisualSort::{predict, predict_with_scene}"],
               spec_calls=_service_calls, replay=replay_delegation, max_paths=5000))
+
+
+# ---------------------------------------------------------------------------------------------- module-level functions
+def _fn_calls(P):
+    def nms_hook(vm, cal, args):
+        dets = args[0]
+        n = 0
+        while isinstance(dets, Ref) and n < 3:
+            dets = vm.deref(dets)
+            n += 1
+        items = list(dets.items) if isinstance(dets, VecV) else list(dets)
+        vm.notes.setdefault('calls', []).append(('nms', [peel_all(VecV(tuple(items))), args[1], args[2]], None))
+        # the (uninterpreted) selection: the boxes of the detections in reverse order, as references into the caller's list
+        return VecV(tuple(Ref(Cell(it[0], 'kept%d' % i)) for i, it in reversed(list(enumerate(items)))), 'Vec')
+
+    def clip_hook(vm, cal, args):
+        a = args[0]
+        n = 0
+        while isinstance(a, Ref) and n < 3:
+            a = vm.deref(a)
+            n += 1
+        r = Opaque('Polygon<f64>', 'clipped')
+        vm.notes.setdefault('calls', []).append(('clip', [a, args[1]], r))
+        return r
+
+    def area_hook(vm, cal, args):
+        a = args[0]
+        n = 0
+        while isinstance(a, Ref) and n < 3:
+            a = vm.deref(a)
+            n += 1
+        r = vm.fresh('f64', 'area')
+        vm.notes.setdefault('calls', []).append(('area', [a], r))
+        return r
+    d = dict(_service_calls(P))
+    d[(None, None, 'nms')] = nms_hook
+    for key in P.impl_methods:
+        if key[0] == 'Universal2DBox' and key[2] == 'sutherland_hodgman_clip':
+            d[key] = clip_hook
+    d[('Polygon', 'Area', 'unsigned_area')] = area_hook
+    return d
+
+
+def _one(x):
+    return x[0] if isinstance(x, list) else x
+
+
+def _mk_functions():
+    def q(vm, P):
+        k = vm.choose_n(3, "function")
+        vm.notes['calls'] = []
+        if k == 0:
+            dets = sym_w(vm, P, 'Vec<(PyUniversal2DBox, Option<f32>)>', 'dets')
+            nthr, sthr = vm.fresh('f32', 'nms_threshold'), sym_w(vm, P, 'Option<f32>', 'score_threshold')
+            r = vm.exec_fn(_one(P.fns['nms_py']), [dets, nthr, sthr], {})
+            calls = vm.notes['calls']
+            vm.check(BOOL(len(calls) == 1 and calls[0][0] == 'nms'), "nms(...) calls the Rust nms once")
+            if len(calls) == 1:
+                a = calls[0][1]
+                vm.check(struct_eq(a[0], peel_all(dets)), "nms passes the detections (boxes and scores) unchanged and in order")
+                vm.check(struct_eq(a[1], nthr), "nms passes nms_threshold")
+                vm.check(struct_eq(a[2], sthr), "nms passes score_threshold")
+            want = VecV(tuple(peel_all(it)[0] for it in reversed(dets.items)), 'Vec')
+            vm.check(struct_eq(peel_all(r), want), "nms returns the boxes the Rust nms selected, in its order")
+            return
+        s, c = sym(vm, P, 'Universal2DBox', 'subject', 2), sym(vm, P, 'Universal2DBox', 'clipping', 2)
+        name = 'sutherland_hodgman_clip_py' if k == 1 else 'intersection_area_py'
+        r = vm.exec_fn(_one(P.fns[name]), [Adt('PyUniversal2DBox', 0, (s,)), Adt('PyUniversal2DBox', 0, (c,))], {})
+        calls = vm.notes['calls']
+        vm.check(BOOL(len(calls) >= 1 and calls[0][0] == 'clip'), name[:-3] + " clips with the Rust sutherland_hodgman_clip")
+        if calls and calls[0][0] == 'clip':
+            vm.check(struct_eq(calls[0][1][0], s), name[:-3] + ": the first argument is the subject")
+            vm.check(struct_eq(calls[0][1][1], c), name[:-3] + ": the second argument is the clipping box")
+            if k == 1:
+                vm.check(BOOL(len(calls) == 1 and peel_all(r) == calls[0][2]), "sutherland_hodgman_clip returns the clipped polygon")
+            else:
+                vm.check(BOOL(len(calls) == 2 and calls[1][0] == 'area' and calls[1][1][0] == calls[0][2]), "intersection_area measures the clipped polygon")
+                if len(calls) == 2:
+                    vm.check(struct_eq(r, calls[1][2]), "intersection_area returns the unsigned area of the clipped polygon")
+    return q
+
+
+PY_FUNCTIONS = PY_PRELUDE + r'''
+a = S.BoundingBox(0.0, 0.0, 10.0, 10.0).as_xyaah()
+b = S.BoundingBox(5.0, 0.0, 10.0, 4.0).as_xyaah()
+assert close(S.intersection_area(a, b), 20.0), "intersection_area: %r" % S.intersection_area(a, b)
+pts = S.sutherland_hodgman_clip(a, b).get_points()
+xs, ys = sorted(set(round(p[0], 3) for p in pts)), sorted(set(round(p[1], 3) for p in pts))
+assert xs == [5.0, 10.0] and ys == [0.0, 4.0], "sutherland_hodgman_clip(subject, clipping): %r" % pts
+big, small, far = (S.BoundingBox(10.0, 11.0, 3.0, 3.8).as_xyaah(), 1.0), (S.BoundingBox(10.3, 11.1, 2.9, 3.9).as_xyaah(), 0.9), (S.BoundingBox(100.0, 100.0, 3.0, 4.0).as_xyaah(), 0.2)
+r = S.nms([small, big, far], 0.7, 0.0)
+assert [round(x.xc, 2) for x in r] == [11.5, 101.5], "nms keeps the best of the overlapping pair and the separate box, by score: %r" % [x.xc for x in r]
+r = S.nms([small, big, far], 0.7, 0.5)
+assert [round(x.xc, 2) for x in r] == [11.5], "nms drops boxes below score_threshold: %r" % [x.xc for x in r]
+r = S.nms([small, big, far], 0.99, 0.0)
+assert len(r) == 3, "nms with a high nms_threshold keeps all: %d" % len(r)
+print("REPLAY-OK")
+'''
+
+
+def replay_functions(cex, v, vm):
+    return PY_FUNCTIONS
+
+
+MIR.append(MQ("c18_functions", "quick", _mk_functions(),
+              "nms / sutherland_hodgman_clip / intersection_area hand their arguments to the Rust functions unchanged and in order (subject first, clipping second; detections with scores, nms_threshold, score_threshold) and return their results",
+              "2 detections; the Rust nms / clip / area are uninterpreted", ["similari::utils::nms::nms_py::nms_py", "similari::utils::clipping::clipping_py::{sutherland_hodgman_clip_py, intersection_area_py}"],
+              spec_calls=_fn_calls, replay=replay_functions))
